@@ -1,7 +1,8 @@
 """C14 — primary and unique keys are never silently duplicated.
 
 Tie (correspondence): random entity models (explicit / auto / composite primary key, unique attributes, composite unique
-keys, optional key attributes with None) are built as real Pony classes over a SQLite FILE database.  A random history of
+keys, optional key attributes with None) are built as real Pony classes over a SQLite FILE database — a quarter of them over a LEGACY
+table without database-level UNIQUE constraints (only the session's key indexes can report a conflict; oracle only).  A random history of
 several db_sessions runs on real Pony: constructor calls (valid and conflicting), assignments and set(**kw) that move or
 swap key values between objects (directly and through a temporary value), deletes followed by re-creation of the same key,
 explicit ids colliding with generated ids, `E[pk]` / `get`, `flush()`, the per-object `obj.flush()`, `commit()`, `rollback()`, and INSERTs / UPDATEs / DELETEs of
@@ -12,6 +13,8 @@ session's own connection sees it, every session object's status / key / values /
 history (the ids SQLite generated are inputs of the model).
 
 Property oracle (real code and real database only):
+  * the conflicting call is refused: after every call no two non-deleted objects of the live session hold one declared key value
+    (histories go on after a caught CacheIndexError and let another object ask for the value the refused object still holds);
   * the DDL Pony generated declares PRIMARY KEY and one UNIQUE index per unique attribute / composite key;
   * after every call the committed table has no two rows with equal primary key, equal unique value or equal composite
     key (rows with a NULL part exempt);
@@ -33,6 +36,8 @@ def gen_spec(rng):
     spec = c11.gen_spec(rng)
     spec['parents'] = [None]; spec['with_h'] = False; spec['with_p'] = False; spec['discr'] = None
     if spec['pk'] in ('relpk', 'relpk1'): spec['pk'] = 'composite'
+    # a legacy table without database-level UNIQUE constraints: only Pony's own key indexes stand between two objects and one key
+    spec['legacy'] = rng.random() < 0.25
     return spec
 
 
@@ -81,6 +86,22 @@ class W14(c11.World):
         for key in self.keys:
             out.append((key, tuple('a%d' % a for a in key) in have))
         return out
+
+    def session_conflicts(self):
+        """[(key, value, [pks])]: two non-deleted objects of the live session hold the same declared key value — the call that made
+        the second one hold it should have been refused (CacheIndexError)"""
+        cache = core.local.db2cache.get(self.db)
+        if cache is None or not cache.is_alive: return []
+        bad = []
+        live = [o for o in cache.objects if isinstance(o, self.E0) and o._status_ not in c11.DEL and o._vals_ is not None]
+        for key in self.keys:
+            seen = {}
+            for o in live:
+                v = tuple(o._vals_.get(self.attrs[a]) for a in key)
+                if None in v: continue
+                if v in seen: bad.append((key, list(v), sorted([repr(seen[v]._pkval_), repr(o._pkval_)])))
+                seen[v] = o
+        return bad
 
     def duplicates(self, table):
         """[(what, value)] for every key value two rows of `table` share"""
@@ -234,6 +255,20 @@ def gen_op(rng, w, since_commit):
     objs = w.objs
     live = [i for i, o in enumerate(objs) if o._status_ not in c11.DEL]
     r = rng.random()
+    while w.spec.get('legacy') and 0.76 <= r < 0.93: r = rng.random()         # no second writer on a legacy table
+    released = getattr(w, 'released', None)
+    if released is not None:
+        # the program caught a CacheIndexError and goes on: another object now asks for the value the refused object still holds
+        w.released = None
+        ro, attrs = released
+        if ro < len(objs) and objs[ro]._status_ not in c11.DEL and objs[ro]._vals_ and rng.random() < 0.7:
+            cur = [[a, objs[ro]._vals_.get(w.attrs[a])] for a in attrs if objs[ro]._vals_.get(w.attrs[a]) is not None]
+            if cur:
+                others = [i for i in live if i != ro]
+                if others and rng.random() < 0.5: return {'k': 'set', 'o': rng.choice(others), 'changes': cur, 'via': 'set'}
+                kw = w.rand_create_kw(rng)
+                for a, v in cur: kw['a%d' % a] = v
+                return {'k': 'create', 'cls': 0, 'kw': kw}
     if r < 0.24 or not objs:
         return {'k': 'create', 'cls': 0, 'kw': w.rand_create_kw(rng)}
     o = rng.choice(live) if live and rng.random() < 0.92 else rng.randrange(len(objs))
@@ -342,6 +377,18 @@ DIRECTED = [
      'sessions': [[{'k': 'create', 'cls': 0, 'kw': {'id': 1, 'a0': 1}}, {'k': 'commit'}],
                   [{'k': 'fetch', 'pk': [1], 'how': 'item'}, {'k': 'delete', 'o': 0}, {'k': 'commit'}],
                   [{'k': 'fetch', 'pk': [1], 'how': 'get'}, {'k': 'create', 'cls': 0, 'kw': {'id': 1, 'a0': 1}}, {'k': 'commit'}]]},
+    # the program catches the CacheIndexError of a conflicting assignment and goes on: the refused object still holds its value, so
+    # a second object asking for it must be refused too — on a Pony-created table and on a legacy table without UNIQUE constraints
+    {'spec': {'nattrs': 1, 'unique': [True], 'ckeys': [], 'pk': 'explicit', 'parents': [None], 'with_h': False, 'legacy': True},
+     'sessions': [[{'k': 'create', 'cls': 0, 'kw': {'id': 1, 'a0': 1}}, {'k': 'create', 'cls': 0, 'kw': {'id': 2, 'a0': 2}}, {'k': 'commit'}],
+                  [{'k': 'fetch', 'pk': [1], 'how': 'item'}, {'k': 'fetch', 'pk': [2], 'how': 'item'},
+                   {'k': 'set', 'o': 0, 'changes': [[0, 2]], 'via': 'attr'}, {'k': 'set', 'o': 1, 'changes': [[0, 1]], 'via': 'attr'}, {'k': 'commit'}]]},
+    {'spec': {'nattrs': 2, 'unique': [True, False], 'ckeys': [[1, 0]], 'pk': 'auto', 'parents': [None], 'with_h': False, 'legacy': False},
+     'sessions': [[{'k': 'create', 'cls': 0, 'kw': {'a0': 1, 'a1': 1}}, {'k': 'create', 'cls': 0, 'kw': {'a0': 2, 'a1': 1}},
+                   {'k': 'set', 'o': 0, 'changes': [[0, 2]], 'via': 'set'}, {'k': 'create', 'cls': 0, 'kw': {'a0': 1, 'a1': 5}}, {'k': 'commit'}]]},
+    {'spec': {'nattrs': 2, 'unique': [False, False], 'ckeys': [[0, 1]], 'pk': 'explicit', 'parents': [None], 'with_h': False, 'legacy': True},
+     'sessions': [[{'k': 'create', 'cls': 0, 'kw': {'id': 1, 'a0': 1, 'a1': 1}}, {'k': 'create', 'cls': 0, 'kw': {'id': 2, 'a0': 2, 'a1': 1}},
+                   {'k': 'set', 'o': 0, 'changes': [[0, 2]], 'via': 'attr'}, {'k': 'create', 'cls': 0, 'kw': {'id': 3, 'a0': 1, 'a1': 1}}, {'k': 'commit'}]]},
     # a flush that stops half-way, caught by the program, then commit
     {'spec': {'nattrs': 1, 'unique': [True], 'ckeys': [], 'pk': 'explicit', 'parents': [None], 'with_h': False},
      'sessions': [[{'k': 'ext', 'pk': [9], 'vals': [3]}, {'k': 'create', 'cls': 0, 'kw': {'id': 1, 'a0': 1}}, {'k': 'create', 'cls': 0, 'kw': {'id': 2, 'a0': 3}},
@@ -354,7 +401,7 @@ def run_history(spec, sessions=None, rng=None, nsess=0, nops=0, ctx=None, workdi
     path = os.path.join(workdir, 'h%d.sqlite' % random.getrandbits(40))
     w = W14(spec, path)
     trace = []; findings = []
-    for key, ok in w.ddl_declares_keys():
+    for key, ok in ([] if spec.get('legacy') else w.ddl_declares_keys()):
         if not ok: findings.append(('ddl-lacks-unique-constraint', {'key': key}, len(trace)))
     baseline = w.committed()          # the table at the last successful commit (plus the second writer's rows)
     count_s = 0
@@ -393,11 +440,21 @@ def run_history(spec, sessions=None, rng=None, nsess=0, nops=0, ctx=None, workdi
                         if ctx: ctx.count('op-not-applicable:' + op['k'])
                         if pending is None and k > nops: break
                         continue
+                    if op['k'] == 'set' and res['err'] == 'CacheIndexError': w.released = (op['o'], [a for a, _ in op['changes']])
                     snap = w.snapshot14()
                     trace.append((op, res, snap))
                     # ---- the property oracle
                     com = snap['committed']
-                    for what, v in w.duplicates(com): findings.append(('duplicate-key-committed', {'key': what, 'value': v}, len(trace) - 1))
+                    # (1) the conflicting call must be refused: never two live objects of the session with one declared key value
+                    for key, v, pks in w.session_conflicts():
+                        findings.append(('conflicting-call-not-refused', {'key': key, 'value': v, 'objects': pks, 'call': op['k'], 'outcome': res['err'] or 'ok'}, len(trace) - 1))
+                    # (2) the committed table: with database constraints no duplicates at all; on a legacy table (no UNIQUE in the
+                    # database) no duplicates among the rows the committing session itself holds as objects
+                    if not spec.get('legacy'):
+                        for what, v in w.duplicates(com): findings.append(('duplicate-key-committed', {'key': what, 'value': v}, len(trace) - 1))
+                    elif op['k'] == 'commit' and res['err'] is None:
+                        mine = [r for r in com if any(w.pkl(o) == r[0] for o in res['written'] if o._status_ not in ('deleted', 'cancelled'))]
+                        for what, v in w.duplicates(mine): findings.append(('duplicate-key-committed', {'key': what, 'value': v, 'legacy-table': True}, len(trace) - 1))
                     if op['k'] in ('ext', 'extu', 'extd'):
                         if res['err'] is None: baseline = com
                     elif op['k'] == 'commit' and res['err'] is not None:
@@ -563,6 +620,9 @@ def run_jobs(ctx, rng, jobs, workdir):
             ctx.note('driver unavailable: the correspondence part is skipped, the oracle still ran'); return
         outs = ctx.driver('C14', [{'op': 'run', 'schema': w.model_schema, 'ops': [t[1]['mop'] for t in trace]} for w, _, trace in batch])
         for (w, spec, trace), out in zip(batch, outs):
+            if spec.get('legacy'):
+                ctx.count('legacy-table-world:oracle-only')         # the model's table enforces the constraints the legacy table lacks
+                continue
             steps = out.get('steps')
             if steps is None:
                 if 'unknown property' in str(out.get('driver_error')): raise RuntimeError('the shared driver executable was replaced while running: %r' % out)
